@@ -103,7 +103,7 @@ func Main(args []string) error {
 	if err != nil {
 		return err
 	}
-	cols := []string{"id", "org", "name", "age", "nick", "kind", "small", "note"}
+	cols := []string{"id", "org", "name", "age", "nick", "kind", "small", "note", "blob"}
 	for i := 1; i <= *n; i++ {
 		fdb := fakesql.New("zoo", sqlzoo.Def)
 		conn := fdb.Open()
